@@ -151,7 +151,7 @@ func runC07(r *core.Run) {
 		add("S4", three, 1, "stmt")
 		add("S5", three, 1, "stmt")
 		add("S6", []string{"core", rich}, 1, "stmt")
-		add("S2", []string{"custom+autoid+attr"}, 1, "stmt")
+		add("S2", []string{"custom+autoid+attr+xhtml+hardwraps"}, 1, "stmt")
 		add("S8", []string{rich}, 1, "stmt")
 	} else {
 		add("S0", three, 2, "stmt")
@@ -314,7 +314,7 @@ func c07RacePass(r *core.Run, b *c07Build) {
 	rounds := core.Pick(r, 20, 100)
 	procs := core.Pick(r, 3, 8)
 	for _, sc := range []string{"S1", "S2", "S4", "S5", "S6", "S7", "S8"} {
-		for _, c := range []string{"core", "all+cjk+autoid+attr", "custom+autoid+attr"} {
+		for _, c := range []string{"core", "all+cjk+autoid+attr", "custom+autoid+attr+xhtml+hardwraps"} {
 			if sc == "S7" && c != "core" || c[0] == 'c' && c[1] == 'u' && sc != "S2" && sc != "S5" {
 				continue
 			}
